@@ -123,6 +123,7 @@ for a in ("lll", "llr", "lrl", "lrr", "rll", "rlr", "rrl", "rrr"):
     ob(f"O-C15-climb4-{a}", ["C15"], C, f"c15_climb4_{a}", f"the same for every sequence of 4 operators over three precedence levels, associativities {a}", [CORE + "load/prec_climb.rs::climb", CORE + "load/prec_climb.rs::climb1"], label="bounded", bound="all 81 operator sequences of length 4 over 3 precedence levels, enumerated concretely", tier="thorough")
 ob("O-C09-ops", ["C09"], C, "c09_math_dispatch", "ops::Math::run applies exactly the operator its variant names to (l, r) in that order, and as_str is the manual's symbol, for every operator and all operands (recording operand type)", [CORE + "ops.rs::Math::run", CORE + "ops.rs::Math::as_str"])
 ob("O-C08-ops", ["C08"], C, "c08_cmp_dispatch", "ops::Cmp::run is the comparison its variant names (<, <=, >, >=, ==, !=) on an ordered type, for all pairs, and as_str is the manual's symbol", [CORE + "ops.rs::Cmp::run", CORE + "ops.rs::Cmp::as_str"])
+ob("O-C15-verify-last", ["C15"], C, "c15_verify_last", "Parser::verify_last accepts exactly when what remains of a delimited block is its closing delimiter alone (or nothing at the top level): leftover tokens before the delimiter are an error, never silently dropped", [CORE + "load/parse.rs::Parser::verify_last"], label="bounded", bound="remaining token lists of length 0..=2 over three token texts x three expected delimiters, enumerated concretely")
 ob("O-C16-vars", ["C16", "C01"], C, "c16_var_numbering", "Compiler::var with no live local binder: the returned index selects, in the run-time list Vars::new(globals ++ imported values), the last data import of that name owned by the current module, else the last command-line variable of that name; an undefined name is reported, never mis-indexed", [CORE + "compile.rs::Compiler::var"], label="bounded", bound="2 data imports x 2 owning modules, 2 global variables, names from a 2-letter alphabet, current module 0 or 1 (all symbolic)")
 ob("O-C01-binds", ["C01"], C, "c01_binds", "binds(sig, args) pairs the i-th signature kind (variable / filter) with the i-th argument id, in order", [CORE + "compile.rs::binds"], label="bounded", bound="<= 3 arguments, kinds and ids symbolic")
 ob("O-C03-peek", ["C03"], C, "c03_next_if_one", "next_if_one returns an element only under size_hint upper bound Some(1); pulls nothing when it declines because of the hint; never pulls an element it does not return (ghost pull counter on the upstream iterator)", [CORE + "box_iter.rs::next_if_one"], label="bounded", bound="upstream streams of length <= 3, every honest size hint")
